@@ -1,5 +1,5 @@
 (* C09 — Compiled meaning depends only on the token sequence, not on its spelling.  Statements only. *)
-From SV Require Import Base Regex IR Lit AttrPat Parser RespellCorpus RespellFacts UnescFacts.
+From SV Require Import Base Regex IR Lit AttrPat Parser RespellCorpus RespellFacts UnescFacts StrContFacts.
 
 (* FULL STATEMENT: forall AST a and spellings c c', compile (print c a) = compile (print c' a).
    Proved: (1) names and keywords are compared after ASCII lower-casing (for all tokens); (2) every escape form
@@ -48,3 +48,11 @@ Print Assumptions C09_respelling.
 Example C09_spelling_nonvacuous :
   spells [92; 52; 49; 32; 92; 48; 48; 48; 48; 52; 50; 92; 35; 99]%N [65; 66; 35; 99]%N.
 Proof. exact spells_example. Qed.
+
+(* FINITE (kernel computation on the REGENERATED pattern RE_CSS_STR_ESC): a line continuation - backslash + LF, CR LF, CR or FF -
+   contributes nothing to a quoted value in twelve contexts, among them right before the end of the value (where `\\$` used
+   to win over `\\NEWLINE` for a lone line feed, /repo fix 9d8dee2); an escaped end of input is U+FFFD only at the real end.
+   A regression obligation, not the unbounded string-mode theorem (which is not proved: partial). *)
+Theorem C09_line_continuations_finite : forallb (fun nl => forallb (cont_ok nl) CONTEXTS) NEWLINES = true.
+Proof. exact line_continuations. Qed.
+Print Assumptions C09_line_continuations_finite.
